@@ -395,7 +395,7 @@ pub fn run(ctx: &Ctx) -> PropResult {
             let footer = if version >= 2 { "XXX6:30".to_string() } else { String::new() };
             let mut types = types;
             types[0] = (-23_400, false);
-            let s = crate::model::tzif_gen::Synth { version, transitions, type_idx, types, footer };
+            let s = crate::model::tzif_gen::Synth { version, transitions, type_idx, types, footer, desigs: None };
             bases.push((format!("synthetic-v{}-with-{}-types", version, ntypes), s.bytes()));
         }
     }
@@ -515,6 +515,13 @@ pub fn run(ctx: &Ctx) -> PropResult {
         let e2e = if idx % 50 == 0 { Some(path.as_path()) } else { None };
         outcome_of(rec, rng, &b, &format!("{}: {} random byte edits", name, n), "random-bytes", e2e);
     }));
+    // self-aligned files whose header fields were all drawn independently (see tzif_gen::gen_frankenstein)
+    wls.push(Workload::cases("self_aligned_files_with_independent_header_fields", ctx.count(60_000, 3_000_000), move |rec, idx, rng| {
+        let (bytes, desc) = crate::model::tzif_gen::gen_frankenstein(rng);
+        let path = od.join(format!("hostile_{}_f{}.tzif", pid, idx % 64));
+        let e2e = if idx % 50 == 0 { Some(path.as_path()) } else { None };
+        outcome_of(rec, rng, &bytes, &desc, "independent-header-fields", e2e);
+    }));
     wls.push(Workload::cases("degenerate_inputs", 1, |rec, _, rng| {
         for (what, bytes) in [
             ("empty file", vec![]),
@@ -541,8 +548,9 @@ pub fn run(ctx: &Ctx) -> PropResult {
         "{} base files (vendored IANA files, fat and slim, and synthetic v1/v2/v3 files). ENUMERATED per base: every header count of both headers x {{0, 1, exact±1, 2^16, 2^32−1}}, the version byte x {{0,'1','2','3','4',0xFF}}, every transition's type index x {{typecnt−1, typecnt, 255}}, every truncation point ({} mutated files). Footers: {} hand-written hostile POSIX-TZ strings (month 0/13/99/256, week 0/6/9/256, day 7/9/255, J0, J366, 365/366, 12-digit numbers in every numeric slot, missing parts, unterminated <, NUL, ':' forms, offsets 24/25/167/168 h) and grammar-aware mutations (one numeric slot replaced, byte damage incl. non-UTF-8, colliding / year-boundary rules), with and without the enclosing newlines, under version 2 and 3; ENUMERATED magnitude ladder: every numeric slot of six footer shapes x every value 10^k±1 (k ≤ 22), 2^k±1 (k ≤ 66) and ⌊2^31|2^32|2^63|2^64 / 60|3600|86400|604800⌋±1 (numbers that fit their integer type but not after conversion to seconds); random byte damage; degenerate inputs. Every parsed result is looked up at the DateTime range ends, 0, ±2^31, Feb 28–Mar 1 / Dec 31 / Jan 1 of eight years and 40 random timestamps; 1/50 of the files additionally as /etc/localtime through Offset::Local.resolve(). Outcome classes {{error, accepted, panic}} — only a panic (or a hang, caught by the watchdog) is a violation. Non-trivial = every mutated file; distinct by hash of the bytes. Bases include files with 254, 255 and 256 local time types (v1 and v2). Accepted files are additionally looked up at every transition −1/0/+1 s and inside every interval of their own table.",
         bases.len(), total, HOSTILE_FOOTERS.len()
     );
+    meta.rule.push_str(" Self-aligned files whose header fields are all drawn independently (version byte of each header, 4- or 8-byte transition times in the second block, all six counts incl. leap records and unequal indicator counts, non-zero indicator bytes) with the body written to match, valid footer behind: inconsistent yet readable to the end.");
     meta.required_bins = vec![
-        "mutation/header-count", "mutation/version-byte", "mutation/type-index", "mutation/truncation", "mutation/footer", "mutation/footer-on-empty-table", "mutation/footer-number-ladder", "mutation/random-bytes", "mutation/degenerate",
+        "mutation/header-count", "mutation/version-byte", "mutation/type-index", "mutation/truncation", "mutation/footer", "mutation/footer-on-empty-table", "mutation/footer-number-ladder", "mutation/random-bytes", "mutation/degenerate", "mutation/independent-header-fields",
         "end-to-end/Offset::Local-on-damaged-file",
     ];
     meta.assumptions = vec!["which error is returned, and whether a malformed-but-harmless file is accepted, are not judged".into()];
